@@ -347,17 +347,34 @@ class C07(Spec):
         b = {'document': 'not JSON | any non-object top level | single JWK object | keys of any non-array type | keys array of 0,1,2 elements of any type',
              'JWK members': 'kty,k,alg,kid each absent or of any JSON type (use, key_ops: query C07.values); strings <= 6 arbitrary bytes'}
         qs = []
+
+        def mk(sh, sn, rt, rn, pre, checks, mem):
+            q = ring_q('C07.shape.%s.%s%s%s' % (sn, rn, '.pre' if pre else '', '' if checks == 'verdict' else '.mem'),
+                       ['SIDE_LOAD', 'SHAPE=%d' % sh, 'ROUTE=%d' % rt, 'PRE=%d' % pre], bounds=b, checks=checks, budget=1200)
+            q.unwindset = {f + '.0': 5 for f in LIST_LOOPS}
+            q.mem_gb = mem
+            return q
+        heavy = ('single', 'keys1', 'keys2')
         for sh, sn in enumerate(shapes):
+            if sn == 'keys2':
+                continue
+            # functional obligations for every shape on the create route (verdict mode)
+            qs.append(mk(sh, sn, 0, 'create', 0, 'verdict', 7 if sn in heavy else 2))
+            # all other entry points: cheap shapes always, the single-JWK shape in the thorough tier
             for rt, rn in enumerate(routes):
-                for pre in (0, 1):
-                    if pre and rn != 'load':
-                        continue
-                    if tier == 'quick' and not (rn == 'create' or sn == 'single'):
-                        continue
-                    q = ring_q('C07.shape.%s.%s%s' % (sn, rn, '.pre' if pre else ''),
-                               ['SIDE_LOAD', 'SHAPE=%d' % sh, 'ROUTE=%d' % rt, 'PRE=%d' % pre], bounds=b)
-                    q.unwindset = {f + '.0': 5 for f in LIST_LOOPS}
-                    qs.append(q)
+                if rn == 'create':
+                    continue
+                if sn in ('notjson', 'nonobject') or (tier == 'thorough' and sn == 'single'):
+                    qs.append(mk(sh, sn, rt, rn, 0, 'verdict', 7 if sn in heavy else 2))
+        # memory safety (CBMC pointer/bounds/overflow checks + exact ownership balance)
+        qs.append(mk(2, 'single', 0, 'create', 0, 'memsafe-noconv', 11))
+        qs.append(mk(5, 'keys1', 1, 'load', 1, 'memsafe-noconv', 12))
+        for sn in ('notjson', 'nonobject', 'keys_nonarray', 'keys0'):
+            qs.append(mk(shapes.index(sn), sn, 1, 'load', 1, 'memsafe-noconv', 3))
+        if tier == 'thorough':
+            q = mk(6, 'keys2', 0, 'create', 0, 'verdict', 40)
+            q.budget = 5400
+            qs.append(q)
         for kty in ('RSA', 'EC', 'OKP'):
             qs.append(import_q('C07.item.%s' % kty.lower(), kty, 'PROP_C07'))
         qs.append(Query('C07.values', 'keyring.c', RING_UNITS, defines=['SIDE_VALUES', 'VJ_MAXM=4', 'VJ_SLEN=10', 'VF_CAP=16'],
@@ -508,9 +525,12 @@ class C17(Spec):
             q.bounds['failing allocation index'] = k
             qs.append(q)
         for sh, sn in ((2, 'single'), (5, 'keys1')):
-            for k in (range(0, 8) if tier == 'quick' else range(0, 12)):
-                q = ring_q('C17.load.%s.k%02d' % (sn, k), ['SIDE_LOAD', 'SHAPE=%d' % sh, 'ROUTE=1', 'PRE=%d' % (1 if sn == 'keys1' else 0), 'FAULT_K=%d' % k, 'VF_NO_REACH'],
-                           bounds={'failing allocation index': k, 'document': sn})
+            # the later the fault, the more of the (memory-hungry) load path is executed symbolically
+            ks = (range(0, 6) if sn == 'single' else range(0, 4)) if tier == 'quick' else range(0, 11)
+            for k in ks:
+                q = ring_q('C17.load.%s.k%02d' % (sn, k), ['SIDE_LOAD', 'SHAPE=%d' % sh, 'ROUTE=1', 'PRE=%d' % (1 if sn == 'keys1' else 0), 'FAULT_K=%d' % k, 'VF_NO_REACH', 'JWK_SMALL'],
+                           bounds={'failing allocation index': k, 'document': sn + ' (members kty, k, kid)'}, checks='pointer', budget=1500)
+                q.mem_gb = 3 if k < 4 else 14
                 q.unwindset = {f + '.0': 5 for f in LIST_LOOPS}
                 qs.append(q)
         return qs
